@@ -278,3 +278,218 @@ def wrap_mixed(ctx, name, ref):
             return ('any',)
         return e
     return f
+
+
+# ---------------------------------------------------------------------------
+# T-ITER: step function of the array / map iterators (item level)
+
+ITERS = [("<minicbor::decode::decoder::ArrayIter<'a, 'b, T> as std::iter::Iterator>::next", 1),
+         ("<minicbor::decode::decoder::ArrayIterWithCtx<'a, 'b, C, T> as std::iter::Iterator>::next", 1),
+         ("<minicbor::decode::decoder::MapIter<'a, 'b, K, V> as std::iter::Iterator>::next", 2),
+         ("<minicbor::decode::decoder::MapIterWithCtx<'a, 'b, C, K, V> as std::iter::Iterator>::next", 2)]
+
+
+def t_iter(ctx, prog):
+    """one call of next() from an arbitrary remaining length and next item"""
+    from .. import l1, l2
+    from ..absint import State, Adt, Ref
+    from ..prims import some, NONE, OPTION, RESULT, norm_adt
+    ctx.rules_run.append('T-ITER: one next() of ArrayIter/MapIter(+WithCtx) from an arbitrary remaining length x next item: definite counts down once per element and ends at 0 without consuming; indefinite ends exactly on the break byte (consumed); running out of input is reported as Some(Err(end of input)), never as the end of the sequence')
+    n = 0
+    for path, per in ITERS:
+        inst = prog.one(path)
+        if inst is None:
+            ctx.fail_closed('T-ITER', 'anchor missing: %s' % path)
+            continue
+        where = mir.loc(inst['sp'])
+        short = path.split('decoder::')[1].split('<')[0]
+        ad = prog.adts.get('minicbor::decode::decoder::' + short)
+        if ad is None or 'len' not in ad['variants'][0]['fields']:
+            ctx.fail_closed('T-ITER', '%s has no `len` field any more' % short)
+            continue
+        li = ad['variants'][0]['fields'].index('len')
+        leaves = [('ITEM', 'ENC', 'T', 'e%d' % i) for i in range(per)]
+        for lname, lenv, rng in (('None', NONE, None), ('Some(0)', some(Int.const(0)), None), ('Some(n>=1)', some(Int.sym('rem')), ((1, (1 << 64) - 1),))):
+            for sname, stream in (('elements', leaves), ('break', [('ITEM', 'BREAK')]), ('eoi', []), ('half', leaves[:per - 1]) if per == 2 else ('eoi2', [])):
+                key = '%s|len=%s|next=%s' % (short, lname, sname)
+                st = State()
+                if rng:
+                    st.ranges['rem'] = rng
+                    st.symty['rem'] = 'u64'
+                st.extra['stream'] = tuple(stream)
+                st.extra['cur'] = 0
+                m = l2.L2Machine(prog, l2.decoder_overrides())
+                body = inst['body']
+                names = dict((l, nm) for l, nm in body['names'])
+                args = [m.make_value(st, body['locals'][i], names.get(i, 'a%d' % i)) for i in range(1, body['argc'] + 1)]
+                a0 = args[0]
+                it = m.read_path(st, a0.key, a0.path)
+                if not (isinstance(it, Adt) and len(it.fields) > li):
+                    ctx.fail_closed('T-ITER', '%s: unexpected iterator value %r' % (short, it))
+                    continue
+                fs = list(it.fields)
+                fs[li] = lenv
+                m.write_path(st, a0.key, a0.path, Adt(it.adt, it.variant, fs))
+                try:
+                    outs = m.run(inst, args, st)
+                except Abort as e:
+                    ctx.fail_closed('T-ITER', '%s cannot be interpreted: %s' % (key, e))
+                    continue
+                n += 1
+                # reference
+                if lname == 'Some(0)':
+                    want = ('end', 0, 'Some(0)')
+                elif sname == 'elements':
+                    want = ('item', per, 'None' if lname == 'None' else 'Some(rem + -1)')
+                elif sname == 'break':
+                    want = ('end', 1, 'None') if lname == 'None' else ('error', None, None)
+                else:
+                    want = ('eoi', None, None)
+                good = True
+                for o in outs:
+                    if o.kind != 'return':
+                        ctx.violation('T-ITER.total', key, 'path does not return: %s' % o.why, where)
+                        good = False
+                        continue
+                    v = o.value
+                    it2 = m.read_path(o.st, a0.key, a0.path)
+                    ln = it2.fields[li] if isinstance(it2, Adt) else None
+                    lns = 'None' if (isinstance(ln, Adt) and ln.variant == 0) else ('Some(%r)' % (ln.fields[0],) if isinstance(ln, Adt) else repr(ln))
+                    if isinstance(v, Adt) and norm_adt(v.adt) == OPTION and v.variant == 0:
+                        got = ('end', l2.cur(o.st), lns)
+                    elif isinstance(v, Adt) and norm_adt(v.adt) == OPTION and isinstance(v.fields[0], Adt) and norm_adt(v.fields[0].adt) == RESULT:
+                        r = v.fields[0]
+                        if r.variant == 0:
+                            got = ('item', l2.cur(o.st), lns)
+                        else:
+                            cls = l1.error_class(prog, r.fields[0])
+                            got = ('eoi', None, None) if cls == 'EndOfInput' else ('error', None, None)
+                    else:
+                        got = ('other:%r' % (v,), None, None)
+                    if got != want:
+                        good = False
+                        ctx.violation('T-ITER', key, 'next() with remaining length %s and next input %s: %s; expected %s' % (lname, sname, describe(got), describe(want)), where)
+                if good:
+                    ctx.ok('T-ITER', key)
+    ctx.floor('T-ITER', 'step cases', n, 40)
+
+
+def describe(t):
+    k, c, ln = t
+    return {'end': 'ends the sequence (None)', 'item': 'yields an element', 'eoi': 'reports the end-of-input error', 'error': 'reports an error'}.get(k, k) + (
+        '' if c is None else ' after consuming %d item(s), remaining length -> %s' % (c, ln))
+
+
+_run_acc = run
+
+
+def run(ctx):
+    r = _run_acc(ctx)
+    t_iter(ctx, load.program('core-full'))
+    return r
+
+
+# ---------------------------------------------------------------------------
+# T-IMPL.indef: built-in Decode impls over the indefinite-length re-framing of their own encoding
+
+def expand_reps(events, k=2):
+    """representative iterations -> k concrete elements; the header that announced the collection gets the constant k"""
+    ev = [e for e in events if e[0] in ('ITEM', 'REP_BEGIN', 'REP_END')]
+    out = []
+    i = 0
+    while i < len(ev):
+        e = ev[i]
+        if e[0] == 'REP_BEGIN':
+            j = i + 1
+            inner = []
+            while j < len(ev) and ev[j][0] != 'REP_END':
+                if ev[j][0] != 'ITEM':
+                    return None      # nested representative iteration: not re-framed
+                inner.append(ev[j])
+                j += 1
+            # the header is the closest preceding ARRAY/MAP item with a non-constant count
+            for h in range(len(out) - 1, -1, -1):
+                if out[h][0] == 'ITEM' and out[h][1] in ('ARRAY', 'MAP') and not (isinstance(out[h][2], Int) and out[h][2].is_const()):
+                    out[h] = ('ITEM', out[h][1], Int.const(k))
+                    break
+            else:
+                return None
+            for c in range(k):
+                for it in inner:
+                    if it[1] == 'ENC':
+                        out.append(('ITEM', 'ENC', it[2], '%s#%d' % (it[3], c)))
+                    else:
+                        out.append(it)
+            i = j + 1
+            continue
+        out.append(e)
+        i += 1
+    return out
+
+
+def t_impl_indef(ctx, prog):
+    import json, os
+    from .. import l1, l2
+    from . import summaries
+    from .derive_rules import reframe, fmt_items
+    ctx.rules_run.append('T-IMPL.indef: every built-in Decode impl over its own encoding with the outermost definite array/map re-framed as indefinite-length (two concrete elements for collections): it either fails, or succeeds having consumed the whole item - break included - and read the components in order')
+    enc = dict((i['self_ty'], i) for i in prog.impls if i['trait'] == 'minicbor::encode::Encode' and i['krate'] == 'minicbor')
+    dec = dict((i['self_ty'], i) for i in prog.impls if i['trait'] == 'minicbor::decode::Decode' and i['krate'] == 'minicbor')
+    n = 0
+    accepted = 0
+    for t in sorted(set(enc) & set(dec)):
+        e = summaries.summary(prog, enc[t]['trait_ref'] + '::encode', 'enc')
+        if e is None or e[0] == 'abort':
+            continue
+        where = mir.loc(dec[t]['sp'])
+        for eo in e[1]:
+            if eo.kind != 'return' or l1.result_kind(eo.value) != 'Ok':
+                continue
+            ev = expand_reps(eo.st.events)
+            if ev is None:
+                continue
+            lead = 0
+            while lead < len(ev) and ev[lead][1] == 'TAG':
+                lead += 1
+            rf = reframe(ev, lead)
+            if rf is None:
+                continue
+            key = '%s|%s' % (t, ','.join('%s=%s' % kv for kv in sorted(summaries.choices(eo.st).items())) or 'all')
+            try:
+                r = l2.run_decode(prog, dec[t]['trait_ref'] + '::decode', rf, from_state=eo.st)
+            except Abort as ex:
+                ctx.fail_closed('T-IMPL.indef', '%s: decode cannot be interpreted: %s' % (t, ex))
+                continue
+            n += 1
+            good = True
+            want = [x[3] for x in rf if x[0] == 'ITEM' and x[1] == 'ENC']
+            for o in r[1]:
+                if o.kind != 'return':
+                    ctx.violation('T-IMPL.indef.total', key, 'path does not return: %s' % o.why, where)
+                    good = False
+                    continue
+                if l1.result_kind(o.value) != 'Ok':
+                    continue
+                accepted += 1
+                if l2.cur(o.st) != len(l2.stream(o.st)):
+                    rest = l2.stream(o.st)[l2.cur(o.st):]
+                    good = False
+                    ctx.violation('T-IMPL.indef', key + '|consumption', 'the indefinite-length form %s is accepted but %d item(s) are left unread (%s): the position is not at the end of the item' % (fmt_items(rf)[:100], len(rest), fmt_items(rest)[:60]), where)
+                    continue
+                got = [x[3] for x in o.st.events if x[0] == 'DECODED']
+                if got != want:
+                    good = False
+                    ctx.violation('T-IMPL.indef', key + '|order', 'components are read as %s, the encoding has %s' % (got, want), where)
+            if good:
+                ctx.ok('T-IMPL.indef', key)
+    ctx.count('T-IMPL.indef.accepting_paths', accepted)
+    ctx.floor('T-IMPL.indef', 're-framed encodings', n, 30)
+
+
+_run_iter = run
+
+
+def run(ctx):
+    r = _run_iter(ctx)
+    t_impl_indef(ctx, load.program('core-full'))
+    return r
